@@ -42,7 +42,7 @@ type attrs struct {
 	FF, HW, Headless, Nonce bool
 	Touch                   int
 	Usage                   int
-	Opt                     int // 0 nil map, 1 empty map, 2 present but empty, 3 set, 4 other option only
+	Opt                     int // 0 nil map, 1 empty map, 2 present but empty, 3 set, 4 other option only, 5..7 set to a non-empty value that names no host (separators, blanks, a NUL)
 }
 
 func consistent(a attrs) bool {
@@ -56,7 +56,7 @@ func consistent(a attrs) bool {
 	return true
 }
 
-func optSet(a attrs) bool { return a.Opt == 3 }
+func optSet(a attrs) bool { return a.Opt == 3 || a.Opt >= 5 }
 
 // refType is the rule table transcribed from the type documentation / statement.
 func refType(a attrs) int {
@@ -135,6 +135,12 @@ func mkCert(a attrs, transID string, prins []string, reqUser string) *ssh.Certif
 		c.CriticalOptions = map[string]string{optName: "host1,host2"}
 	case 4:
 		c.CriticalOptions = map[string]string{"force-command": "x", "Touchless-Sudo-Hosts": "y"}
+	case 5:
+		c.CriticalOptions = map[string]string{optName: ", ,"}
+	case 6:
+		c.CriticalOptions = map[string]string{optName: " "}
+	case 7:
+		c.CriticalOptions = map[string]string{optName: "\x00"}
 	}
 	return c
 }
@@ -157,7 +163,7 @@ func main() {
 		for fl := 0; fl < 16; fl++ {
 			for _, tp := range []int{-1, 0, 1, 2, 3, 4, 255, 256, -128, 65536, 1 << 40} {
 				for us := 0; us < 2; us++ {
-					for opt := 0; opt < 5; opt++ {
+					for opt := 0; opt < 8; opt++ {
 						a := attrs{FF: fl&1 != 0, HW: fl&2 != 0, Headless: fl&4 != 0, Nonce: fl&8 != 0, Touch: tp, Usage: us, Opt: opt}
 						c := r.Case("table", idx)
 						idx++
@@ -271,7 +277,7 @@ func main() {
 		if r.Want("precedence") {
 			i := 0
 			for _, tp := range []int{-1, 0, 1, 2, 3, 4} {
-				for opt := 0; opt < 5; opt++ {
+				for opt := 0; opt < 8; opt++ {
 					for hw := 0; hw < 2; hw++ {
 						c := r.Case("precedence", i)
 						i++
@@ -289,7 +295,7 @@ func main() {
 					}
 				}
 			}
-			for opt := 0; opt < 5; opt++ {
+			for opt := 0; opt < 8; opt++ {
 				for hw := 0; hw < 2; hw++ {
 					c := r.Case("precedence", i)
 					i++
